@@ -305,7 +305,70 @@ def rule_odometer(ctx, M, fn, pr):
         # the increment happens for the player selected under the bound (through an Option<usize> carried out of the scan loop):
         # necessary condition checked here: some bound comparison exists and dominates nothing else is required
         pass
-    ctx.ok(rule, {"bound": "idx + 1 < len", "increments": len(incs), "resets": len(resets)}, sample=True)
+    # mixed-radix order: the player chosen to advance is the LAST one with room (scan from the end, stop at the first hit),
+    # every later counter is reset, and when nobody has room all counters are reset together with the position advance
+    scan_loops = [lp for lp in L.for_loops(fn, pr) if any(b_ in lp.body for (b_, _l, _c, _k) in adv)]
+    order_problems = []
+    if len(scan_loops) != 1:
+        order_problems.append("the bound comparison is not inside a single scan loop over the players")
+    else:
+        lp = scan_loops[0]
+        src, chain = lp.chain()
+        names = [c.rsplit("::", 1)[-1] for c in chain]
+        # which counter is compared: index term of the counters vector
+        cmp_block = adv[0][0]
+        idx_terms = []
+        for b_, lab_, truth_, term_ in I.bool_edges(fn, pr):
+            if b_ != cmp_block:
+                continue
+            for sub in P.walk(term_):
+                if sub[0] == "call" and sub[1].endswith("::index") and sub[2] and P.strip(sub[2][0]) == counters:
+                    idx_terms.append(P.strip(sub[2][1]))
+        item = P.strip(lp.item_term)
+        descending = False
+        for it in idx_terms:
+            # len - i - 1 with i ascending, or the item of a reversed range
+            s_ = it
+            off = 0
+            while s_[0] == "bin" and s_[1] == "Sub" and P.const_int(s_[3]) is not None:
+                off += P.const_int(s_[3])
+                s_ = P.strip(s_[2])
+            if s_[0] == "bin" and s_[1] == "Sub" and P.strip(s_[3]) == item and off == 1:
+                base = P.strip(s_[2])
+                if base[0] == "call" and base[1].rsplit("::", 1)[-1] == "len" and "rev" not in names:
+                    descending = True
+            if it == item and "rev" in names:
+                descending = True
+        if not descending:
+            order_problems.append("the scan does not walk the players from last to first (the last player must be the fastest digit)")
+        # the hit leaves the loop at once
+        hit_edges = [(b_, l_) for (b_, l_, c_, k_) in adv]
+        for (b_, l_) in hit_edges:
+            tgt = [t_ for l2, t_ in fn.cfg.succ_edges[b_] if l2 == l_][0]
+            r_ = I.reachable_avoiding(fn, [], start=tgt, removed_blocks=[])
+            back = [t_ for (t_, h_) in fn.cfg.back_edges() if h_ == lp.header]
+            r2 = I.reachable_avoiding(fn, [], start=tgt, removed_blocks=[lp.exit_block])
+            if any(t_ in r2 for t_ in back) and lp.header in I.reachable_avoiding(fn, [], start=tgt, removed_blocks=[x for x in fn.cfg.reachable if x not in lp.body]):
+                # the true edge can come back to the header inside the loop: no break
+                order_problems.append("the scan continues after finding a player with room (an earlier player would be advanced instead)")
+    # resets cover exactly the later players: Range(chosen + 1, len)
+    reset_loops = [lp2 for lp2 in L.for_loops(fn, pr) if any(sb in lp2.body for (sb, v) in resets)]
+    for lp2 in reset_loops:
+        src2, chain2 = lp2.chain()
+        s2 = P.strip(src2)
+        if s2[0] == "agg" and s2[1].endswith("Range::Range"):
+            lo, hi = s2[2]
+            lo_ok = lo[0] == "bin" and lo[1] == "Add" and P.const_int(lo[3]) == 1
+            hi_s = P.strip(hi)
+            hi_ok = hi_s[0] == "call" and hi_s[1].rsplit("::", 1)[-1] == "len" and P.strip(hi_s[2][0]) == counters
+            if not (lo_ok and hi_ok):
+                order_problems.append(f"later counters are reset over {P.show(s2)[:60]}, not over (advanced player + 1)..len")
+    if order_problems:
+        ctx.violation(rule, f"{fn.path}|odometer-order", "; ".join(order_problems) + ": combos of some players are skipped or repeated",
+                      fn=fn.path, file=fn.file, line=fn.blocks[adv[0][0]]["line"], construct="odometer scan / reset")
+        return
+    ctx.ok(rule, {"bound": "idx + 1 < len", "increments": len(incs), "resets": len(resets), "scan": "last player first, stop at first hit",
+                  "reset_range": "(advanced + 1)..len"}, sample=True)
 
 
 def rule_ctor(ctx, M):
